@@ -23,6 +23,11 @@ from ..exact import Poly
 from ..topo import REF, KIND_OF_CLASS, Topo
 
 ID = 'C02'
+# sub-checks added after the seeded-change waves (DESIGN.md sections 5 and 6)
+EXTENSIONS = [
+    'orders beyond the enumeration bound are probed and must raise; exactly rotated (3-4-5) variant; facet mass entries; integrand-scaled tolerances',
+    'derived bases (boundary / with_element / with_elements), explicitly restricted MappingAffine(mesh, tind=I), oriented facet sets with exact normal integrals, custom weights in float32 / float16',
+]
 LEVEL = 'exploration'
 TECHNIQUE = "small-scope exhaustive enumeration (mesh states x monomials x orders x domains) against exact rational integrals"
 LEVEL_TEXT = ("Every straight-sided seed of every cell type (plain, renumbered, cell-reordered, locally reordered, mirrored, "
